@@ -97,6 +97,8 @@ HEADERS = [
     # the FIRST paragraph itself is wrapped over several lines (no blank line after the first line)
     "Acquire the lock and return the worker that\ncurrently holds it, waiting if need be\nfor at most the timeout.",
     "First paragraph wrapped\nover two lines.\n\nSecond paragraph.",
+    # inline Sphinx roles and slices in the prose (text that merely LOOKS like a field name)
+    "Summary.\n\nUses the :keyword:`with` statement, see :class:`Foo`, :meth:`run` and d[:key].\n:note: not a field of ours.",
 ]
 
 
@@ -179,6 +181,19 @@ def main(tier, write_baseline=False):
                 if got != len(head):
                     fi = {"docstring": doc, "what": "_get_token_start_idx returned %d, the section line %r starts at %d" % (got, tok + " x", len(head)), "function": "_get_token_start_idx"}
                     break
+        if "prose-line-not-a-section" in o["name"]:
+            # replay the counter-model on the real scanner: a header whose second line is the model's `line`, and no section
+            from cddvc import replay_block
+            from cdd.shared.docstring_utils import _get_token_start_idx
+
+            fi = None
+            line_ = replay_block.model_value(o.get("model") or {}, "line", "str")
+            for cand_line in [line_] + [line_ + " rest of the sentence"]:
+                doc = "Header line.\n" + cand_line + "\nmore prose\n"
+                got = _get_token_start_idx(doc)
+                if got != -1:
+                    fi = {"docstring": doc, "what": "_get_token_start_idx returned %d for a docstring without any section: the prose line %r is taken for a section start" % (got, cand_line), "function": "_get_token_start_idx", "expect": -1}
+                    break
         run.violation(o["name"], "obligation refuted by %s on path %s" % (o["backend"], " ".join(o["trace"])),
                       failing_input=fi, solver_output={"model": o["model"], "smt2": (o["smt2"] or "")[:5000]})
     for (kind, has_raises), (doc, what) in fails.items():
@@ -199,7 +214,7 @@ def replay(path):
 
         got = _get_token_start_idx(inp["docstring"])
         print("%r -> %d (%s)" % (inp["docstring"], got, inp["what"]))
-        return 1 if got != len("Header line.\n\n") else 0
+        return 1 if got != inp.get("expect", len("Header line.\n\n")) else 0
     if "docstring" in inp:
         r = split_check(inp["docstring"])
         print("%r -> %s" % (inp["docstring"][:200], r))
